@@ -152,7 +152,7 @@ def job_events(lines):
 def replay(res, wd, cfg, drv, max_walks, histories):
     d = os.path.join(wd, "dump_" + cfg); os.makedirs(d, exist_ok=True)
     dot = os.path.join(d, "graph.dot")
-    r = tlc.run_tlc(MC, os.path.join(SPEC, cfg), d, timeout=1800, workers=8, extra=["-dump", "dot,actionlabels", dot])
+    r = tlc.run_tlc(MC, os.path.join(SPEC, cfg), d, timeout=1800, workers=4, extra=["-dump", "dot,actionlabels", dot])
     if not r["ok"]:
         res.infra_errors.append("dump failed (%s): %s" % (cfg, r["violated"] or r["error"])); return
     consts = cfg_constants(cfg)
@@ -202,10 +202,11 @@ def replay(res, wd, cfg, drv, max_walks, histories):
                       % (jobs[wi], mismatch), flush=True)
         histories.append(("replay %s: %s" % (cfg, jobs[wi]), job_events(lines), jobs[wi]))
     res.count("walks_replayed", len(jobs)); res.count("steps_compared", steps); res.count("model_drift_walks", drift)
-    res.cov.setdefault("replay_graphs", []).append({"cfg": cfg, "states": len(g.labels), "edges": len(g.edges),
-                                                    "covering_walks": total_walks, "replayed": len(jobs)})
-    if jobs:
-        res.sample({"replayed walk (lanes cap reserve buckets maxSize hashMul lanes progs schedule)": jobs[len(jobs) // 2]})
+    with res._lock:
+        res.cov.setdefault("replay_graphs", []).append({"cfg": cfg, "states": len(g.labels), "edges": len(g.edges),
+                                                        "covering_walks": total_walks, "replayed": len(jobs)})
+        if jobs:
+            res.sample({"replayed walk (lanes cap reserve buckets maxSize hashMul lanes progs schedule)": jobs[len(jobs) // 2]})
 
 # ------------------------------------------------------------------------------------------------------------------
 # T: seeded random schedules on configurations beyond the model's bounds, and real-thread stress
@@ -294,6 +295,13 @@ def validate(res, wd, histories, chunk_events=60000, parallel=4):
     for t in ths:
         t.join()
     res.cov["trace_chunks"] = len(chunks)
+    # TLC leaves a trace-exploration spec next to the module for every rejected history; the rejection is reported above
+    import glob
+    for f in glob.glob(os.path.join(SPEC, "InternAbsTrace_TTrace_*")):
+        try:
+            os.remove(f)
+        except OSError:
+            pass
 
 def validate_chunk(res, wd, hs, reserved, tag):
     consts = ("CONSTANT Threads = {0, 1, 2, 3, 4, 5, 6, 7, 8}\nCONSTANT Values = {}\nCONSTANT Indices = {}\n"
@@ -397,7 +405,7 @@ def run(tier, replay_path=None):
                                                        "depth": r["depth"], "seconds": round(time.time() - t0, 1)})
     cfgs = ["MC_Flyweight2g.cfg", "MC_Flyweight2m.cfg", "MC_Flyweight2c.cfg", "MC_Flyweight3q.cfg"]
     if not quick:
-        cfgs += ["MC_Flyweight3.cfg", "MC_Flyweight3g.cfg", "MC_Flyweight3v.cfg"]
+        cfgs += ["MC_Flyweight3.cfg", "MC_Flyweight3g.cfg", "MC_Flyweight3v.cfg", "MC_Flyweight2mf.cfg"]
     if "mc" not in parts:
         cfgs = []
     per = max(2, NCPU // (4 if quick else 3))
@@ -407,8 +415,15 @@ def run(tier, replay_path=None):
     # R + T (the driver work overlaps the model checking)
     histories = []
     t1 = time.time()
-    for cfg in (["MC_Flyweight2gr.cfg", "MC_Flyweight2mr.cfg"] + ([] if quick else ["MC_Flyweight2cr.cfg"])) if "replay" in parts else []:
-        replay(res, wd, cfg, drv, 800 if quick else None, histories)
+    rcfgs = (["MC_Flyweight2gr.cfg", "MC_Flyweight2mr.cfg"] + ([] if quick else ["MC_Flyweight2cr.cfg"])) if "replay" in parts else []
+    hist_of = {c: [] for c in rcfgs}
+    rths = [threading.Thread(target=replay, args=(res, wd, c, drv, 800 if quick else None, hist_of[c])) for c in rcfgs]
+    for t in rths:
+        t.start()
+    for t in rths:
+        t.join()
+    for c in rcfgs:
+        histories += hist_of[c]
     phase("replay", t1); t1 = time.time()
     if "random" in parts:
         random_schedules(res, wd, drv, 1000 if quick else 8000, histories)
